@@ -1223,4 +1223,228 @@ theorem findIdx_single {c : Nat} : ∀ (xs rest : Bytes), c ∉ xs →
       List.length_cons]
 
 
+
+/-! ### netstrings -/
+
+theorem specUntil_frame (maxsize : Nat) (p rest : Bytes) (hp : p.length ≤ maxsize) :
+    specUntil [colon] ((digits maxsize).length + 1) false (encodeNs p ++ rest)
+      = (.ok (digits p.length), p ++ comma :: rest) := by
+  have hS : encodeNs p ++ rest = digits p.length ++ colon :: (p ++ comma :: rest) := by
+    simp [encodeNs]
+  have hlen := digits_length_mono hp
+  have htake : (encodeNs p ++ rest).take ((digits maxsize).length + 1)
+      = digits p.length ++ colon :: (p ++ comma :: rest).take ((digits maxsize).length - (digits p.length).length) := by
+    rw [hS, List.take_append]
+    have h1 : (digits p.length).take ((digits maxsize).length + 1) = digits p.length :=
+      List.take_of_length_le (by omega)
+    have h2 : (digits maxsize).length + 1 - (digits p.length).length
+        = ((digits maxsize).length - (digits p.length).length) + 1 := by omega
+    rw [h1, h2, List.take_succ_cons]
+  have hfind := findIdx_single (c := colon) (digits p.length)
+    ((p ++ comma :: rest).take ((digits maxsize).length - (digits p.length).length)) (colon_not_in_digits _)
+  simp only [specUntil, htake, hfind, Bool.false_eq_true, ↓reduceIte, List.length_cons, List.length_nil,
+    Nat.zero_add]
+  rw [hS]
+  simp
+
+theorem readNs_frame (cfg : Cfg) (hrs : 0 < cfg.recvsize) (maxsize : Nat) (p rest : Bytes) (st : St)
+    (hto : nTO st.script = 0) (hview : st.view = encodeNs p ++ rest) (hp : p.length ≤ maxsize) :
+    (readNs cfg maxsize st).1 = .ok p ∧ (readNs cfg maxsize st).2.view = rest ∧
+    nTO (readNs cfg maxsize st).2.script = 0 := by
+  unfold readNs
+  -- the size prefix
+  have h1 := recvUntil_ok cfg hrs [colon] ((digits maxsize).length + 1) false st
+  have t1 := recvUntil_nTO cfg [colon] ((digits maxsize).length + 1) false st
+  cases hq1 : recvUntil cfg [colon] ((digits maxsize).length + 1) false st with
+  | mk r1 st1 =>
+  rw [hq1] at h1 t1
+  obtain ⟨t1a, t1b⟩ := t1
+  simp only at t1a t1b
+  have hto1 : nTO st1.script = 0 := by omega
+  rcases h1 with ⟨a, _, _⟩ | ⟨_, b, _, _⟩
+  · have := t1b a; omega
+  · rw [hview, specUntil_frame maxsize p rest hp] at b
+    simp only [Prod.mk.injEq] at b
+    obtain ⟨b1, b2⟩ := b
+    subst b1
+    simp only [parseNat_digits]
+    have hnot : ¬ p.length > maxsize := by omega
+    simp only [hnot, ↓reduceIte]
+    -- the payload
+    have h2 := recvSize_ok cfg hrs p.length st1
+    have t2 := recvSize_nTO cfg p.length st1
+    cases hq2 : recvSize cfg p.length st1 with
+    | mk r2 st2 =>
+    rw [hq2] at h2 t2
+    obtain ⟨t2a, t2b⟩ := t2
+    simp only at t2a t2b
+    have hto2 : nTO st2.script = 0 := by omega
+    rcases h2 with ⟨a, _, _⟩ | ⟨_, b, _, _⟩
+    · have := t2b a; omega
+    · rw [b2] at b
+      have hs : specSize p.length (p ++ comma :: rest) = (.ok p, comma :: rest) := by
+        have hc : p.length ≤ (p ++ comma :: rest).length ∧ p ++ comma :: rest ≠ [] := by
+          constructor
+          · simp
+          · simp
+        simp only [specSize]
+        rw [if_pos hc]
+        simp
+      rw [hs] at b
+      simp only [Prod.mk.injEq] at b
+      obtain ⟨c1, c2⟩ := b
+      subst c1
+      simp only
+      -- the trailing comma
+      have h3 := recv_ok cfg hrs 1 st2
+      have t3 := recv_nTO cfg 1 st2
+      cases hq3 : recv cfg 1 st2 with
+      | mk r3 st3 =>
+      rw [hq3] at h3 t3
+      obtain ⟨t3a, t3b⟩ := t3
+      simp only at t3a t3b
+      have hto3 : nTO st3.script = 0 := by omega
+      rcases h3 with ⟨a, _, _⟩ | ⟨v, a, e, f, g, _⟩
+      · have := t3b a; omega
+      · simp only at a e f g
+        subst a
+        rw [c2] at e g
+        have hv : v = [comma] ∧ st3.view = rest := by
+          cases v with
+          | nil => have := g (by omega) rfl; simp at this
+          | cons x v =>
+            cases v with
+            | nil =>
+              simp only [List.cons_append, List.nil_append, List.cons.injEq] at e
+              exact ⟨by rw [e.1], e.2⟩
+            | cons y v => simp at f
+        simp only [hv.1, ↓reduceIte]
+        exact ⟨trivial, hv.2, hto3⟩
+
+/-- reading back a concatenation of frames, whatever the chunking -/
+theorem readNsMany_frames (cfg : Cfg) (hrs : 0 < cfg.recvsize) (maxsize : Nat) :
+    ∀ (ps : List Bytes) (rest : Bytes) (st : St), nTO st.script = 0 →
+      st.view = (ps.map encodeNs).flatten ++ rest → (∀ p ∈ ps, p.length ≤ maxsize) →
+      (readNsMany cfg maxsize ps.length st).1 = ps.map NsRes.ok ∧
+      (readNsMany cfg maxsize ps.length st).2.view = rest := by
+  intro ps
+  induction ps with
+  | nil => intro rest st _ hv _; simpa [readNsMany] using hv
+  | cons p ps ih =>
+    intro rest st hto hv hall
+    have hv' : st.view = encodeNs p ++ ((ps.map encodeNs).flatten ++ rest) := by
+      rw [hv]; simp
+    obtain ⟨a, b, c⟩ := readNs_frame cfg hrs maxsize p _ st hto hv' (hall p (by simp))
+    obtain ⟨d, e⟩ := ih rest (readNs cfg maxsize st).2 c b (fun q hq => hall q (by simp [hq]))
+    simp only [List.length_cons, readNsMany, List.map_cons]
+    rw [a, d]
+    exact ⟨rfl, e⟩
+
+theorem writeNs_conserves (maxsize : Nat) (p : Bytes) (st : SSt) :
+    (writeNs maxsize p st).2.wire ++ (writeNs maxsize p st).2.getsendbuffer
+      = st.wire ++ st.getsendbuffer ++ (if p.length ≤ maxsize then encodeNs p else []) ∧
+    ((writeNs maxsize p st).1 = .ok → p.length ≤ maxsize ∧ (writeNs maxsize p st).2.getsendbuffer = []) ∧
+    ((writeNs maxsize p st).1 = .nsTooLong ↔ maxsize < p.length) := by
+  unfold writeNs
+  split
+  · rename_i h
+    have : ¬ p.length ≤ maxsize := by omega
+    simp [this, h]
+  · rename_i h
+    have hle : p.length ≤ maxsize := by omega
+    obtain ⟨h1, _, h3, h4, _, _⟩ := send_ok (encodeNs p) st
+    cases hq : send (encodeNs p) st with
+    | mk r st' =>
+      rw [hq] at h1 h3 h4
+      cases r with
+      | timeout => simp only [hle, ↓reduceIte] at h1 ⊢; exact ⟨h1, by simp, by simp; omega⟩
+      | none => exact absurd rfl h3
+      | sent n =>
+        simp only [hle, ↓reduceIte] at h1 ⊢
+        exact ⟨h1, fun _ => ⟨trivial, (h4 n rfl).1⟩, by simp; omega⟩
+
+
+
+/-! ### minimality of the match; flushing until done -/
+
+theorem findIdx_min {d : Bytes} : ∀ {xs : Bytes} {o : Nat}, findIdx d xs = some o →
+    ∀ i, i < o → ¬ d.isPrefixOf (xs.drop i) = true := by
+  intro xs
+  induction xs with
+  | nil =>
+    intro o h i hi
+    simp only [findIdx] at h
+    split at h
+    · simp at h; omega
+    · simp at h
+  | cons x xs ih =>
+    intro o h i hi
+    simp only [findIdx] at h
+    split at h
+    · simp at h; omega
+    · rename_i hp
+      cases hq : findIdx d xs with
+      | none => simp [hq] at h
+      | some o' =>
+        simp [hq] at h
+        subst h
+        cases i with
+        | zero => simpa using hp
+        | succ i => simpa using ih hq i (by omega)
+
+/-- flushing with nothing buffered changes nothing -/
+theorem flush_idle (st : SSt) (h : st.getsendbuffer = []) :
+    (flush st).2.getsendbuffer = [] ∧ (flush st).2.wire = st.wire := by
+  obtain ⟨h1, h2, _, _, _, _⟩ := flush_ok st
+  rw [h, List.append_nil] at h1
+  obtain ⟨t, ht⟩ := h2
+  rw [← ht, List.append_assoc] at h1
+  have : t ++ (flush st).2.getsendbuffer = [] := by
+    have := congrArg List.length h1
+    simp only [List.length_append] at this
+    apply List.eq_nil_of_length_eq_zero
+    simp only [List.length_append]
+    omega
+  have ht0 : t = [] := (List.append_eq_nil_iff.mp this).1
+  have hs0 := (List.append_eq_nil_iff.mp this).2
+  rw [ht0, List.append_nil] at ht
+  exact ⟨hs0, ht.symm⟩
+
+theorem flushN_idle : ∀ (k : Nat) (st : SSt), st.getsendbuffer = [] →
+    (flushN k st).getsendbuffer = [] ∧ (flushN k st).wire = st.wire := by
+  intro k
+  induction k with
+  | zero => intro st h; exact ⟨h, rfl⟩
+  | succ k ih =>
+    intro st h
+    obtain ⟨a, b⟩ := flush_idle st h
+    obtain ⟨c, d⟩ := ih (flush st).2 a
+    simp only [flushN]
+    exact ⟨c, by rw [d, b]⟩
+
+theorem flushN_conserves : ∀ (k : Nat) (st : SSt),
+    (flushN k st).wire ++ (flushN k st).getsendbuffer = st.wire ++ st.getsendbuffer := by
+  intro k
+  induction k with
+  | zero => intro st; rfl
+  | succ k ih =>
+    intro st
+    simp only [flushN]
+    rw [ih, (flush_ok st).1]
+
+/-- every socket timeout uses up one script event, so `len(script) + 1` flushes always get through -/
+theorem flushN_done : ∀ (k : Nat) (st : SSt), st.script.length < k →
+    (flushN k st).getsendbuffer = [] := by
+  intro k
+  induction k with
+  | zero => intro st h; omega
+  | succ k ih =>
+    intro st h
+    obtain ⟨_, _, h3, h4, h5, _⟩ := flush_ok st
+    simp only [flushN]
+    rcases h4 with h4 | h4
+    · exact (flushN_idle k _ (h3 h4)).1
+    · exact ih _ (by have := h5 h4; omega)
+
+
 end C12
